@@ -43,39 +43,39 @@ var Scenarios = map[string]*Scenario{}
 func register(s *Scenario) { Scenarios[s.Name] = s }
 
 type Result struct {
-	Scenario   string            `json:"scenario"`
-	Seed       uint64            `json:"seed"`
-	Run        int               `json:"run"`
-	Mode       string            `json:"mode"`
-	Hash       string            `json:"hash"`
-	LogLen     int               `json:"log_len"`
-	Events     int               `json:"events"`
-	Steps      int               `json:"steps"`
-	SimNs      int64             `json:"sim_ns"`
-	Viol       *core.Violation   `json:"viol,omitempty"`
-	HarnessErr string            `json:"harness_err,omitempty"`
-	Budget     bool              `json:"budget,omitempty"`
-	NonTrivial bool              `json:"nontrivial"`
-	Probes     map[string]int    `json:"probes,omitempty"`
-	Faults     map[string]int    `json:"faults,omitempty"`
-	States     []string          `json:"states,omitempty"`
-	Sample     []string          `json:"sample,omitempty"`
-	Swarm      map[string]any    `json:"swarm,omitempty"`
-	Choices    []core.Choice     `json:"choices,omitempty"`
-	NChoices   int               `json:"nchoices"`
-	WallUs     int64             `json:"wall_us"`
+	Scenario   string          `json:"scenario"`
+	Seed       uint64          `json:"seed"`
+	Run        int             `json:"run"`
+	Mode       string          `json:"mode"`
+	Hash       string          `json:"hash"`
+	LogLen     int             `json:"log_len"`
+	Events     int             `json:"events"`
+	Steps      int             `json:"steps"`
+	SimNs      int64           `json:"sim_ns"`
+	Viol       *core.Violation `json:"viol,omitempty"`
+	HarnessErr string          `json:"harness_err,omitempty"`
+	Budget     bool            `json:"budget,omitempty"`
+	NonTrivial bool            `json:"nontrivial"`
+	Probes     map[string]int  `json:"probes,omitempty"`
+	Faults     map[string]int  `json:"faults,omitempty"`
+	States     []string        `json:"states,omitempty"`
+	Sample     []string        `json:"sample,omitempty"`
+	Swarm      map[string]any  `json:"swarm,omitempty"`
+	Choices    []core.Choice   `json:"choices,omitempty"`
+	NChoices   int             `json:"nchoices"`
+	WallUs     int64           `json:"wall_us"`
 }
 
 type Run struct {
 	*core.World
-	T          *testing.T
-	Seed       uint64
-	Idx        int
-	Rng        *rand.Rand // bulk data, forked from the chooser
-	NonTrivial bool
-	Swarm      map[string]any
-	servers    []*dht.Server
-	bubble     string
+	T           *testing.T
+	Seed        uint64
+	Idx         int
+	Rng         *rand.Rand // bulk data, forked from the chooser
+	NonTrivial  bool
+	Swarm       map[string]any
+	servers     []*dht.Server
+	bubble      string
 	NoLeakCheck bool
 }
 
